@@ -61,6 +61,7 @@ func vMkWorld() *vWorld {
 		if _, ok := m.endpoints[e.id]; ok && e.status == recovering {
 			m.scheduleUnavailable(e)
 			t := vTimers[len(vTimers)-1]
+			t.kind = 1
 			t.due = e.lastChange.UnixNano() + int64(w.r)
 		}
 	}
@@ -70,6 +71,7 @@ func vMkWorld() *vWorld {
 		verifAssume(w.orphan.lastChange.UnixNano() >= 0 && w.orphan.lastChange.UnixNano() <= vNow)
 		m.scheduleUnavailable(w.orphan)
 		vTimers[len(vTimers)-1].due = w.orphan.lastChange.UnixNano() + int64(w.r)
+		vTimers[len(vTimers)-1].kind = 1
 	}
 	// pending delayed switches (closures only capture the multiEndpoint)
 	if w.d > 0 {
@@ -83,6 +85,7 @@ func vMkWorld() *vWorld {
 				m.current = "from"
 				m.switchFromTo(from, to) // registers the real delayed-switch closure
 				m.current, m.future = cur, fut
+				vTimers[len(vTimers)-1].kind = 2
 				vTimers[len(vTimers)-1].due = int64(verifInt("switchDue" + verifD(k)))
 				verifAssume(vTimers[len(vTimers)-1].due >= 0 && vTimers[len(vTimers)-1].due <= vNow+int64(w.d))
 			}
@@ -129,14 +132,30 @@ func (w *vWorld) conv() bool {
 		}
 	}
 	// or a delayed switch to the top available endpoint is pending
-	if m.future == vName(top) {
+	if m.future == vName(top) && m.switchingDelay > 0 && v.status[v.cur] != unavailable {
 		for i := 0; i < len(vTimers); i++ {
-			if vTimers[i].live() && vTimers[i].d == m.switchingDelay && m.switchingDelay > 0 {
+			if vTimers[i].live() && vTimers[i].kind == 2 {
 				return true
 			}
 		}
 	}
 	return false
+}
+
+// vClassify tags timers created by the operation: a recovery timer is some endpoint's futureChange.
+func (w *vWorld) classify() {
+	for i := 0; i < len(vTimers); i++ {
+		t := vTimers[i]
+		if t.kind != 0 {
+			continue
+		}
+		t.kind = 2
+		for j := 0; j < vE; j++ {
+			if e, ok := w.m.endpoints[vName(j)]; ok && e.futureChange == timerAlike(t) {
+				t.kind = 1
+			}
+		}
+	}
 }
 
 func VerifH_mestep() {
@@ -182,11 +201,11 @@ func VerifH_mestep() {
 		if vNow < t.due {
 			vNow = t.due
 		}
-		isSwitch := d > 0 && t.d == d && i >= timers0-int(verifInt("nSwitchTimers"))
-		if isSwitch {
+		if t.kind == 2 {
+			// the delayed switch is outdated when its target is no longer the top available endpoint
 			fe, ok := m.endpoints[m.future]
-			ce, cok := m.endpoints[m.current]
-			firedOutdated = ok && cok && fe.status == available && ce.status == available && fe.priority > ce.priority
+			ta := v0.topAvail()
+			firedOutdated = ok && fe.status == available && (ta == vE || m.future != vName(ta))
 			verifReach("switch timer fired")
 		}
 		verifKnown("F-switch", firedOutdated)
@@ -194,6 +213,7 @@ func VerifH_mestep() {
 		t.f()
 	}
 	verifReach("after op")
+	w.classify()
 	v1 := vLook(m)
 	w.assertInv()
 	top1 := v1.topAvail()
